@@ -46,6 +46,32 @@ def c04_units(tier, seed):
             segs = [(lo, 4194303), (4194304, hi)]
         for (a, b) in segs:
             us.append(dict(id=f"C04j[N={a}..{b}]", harness="calendar.VH_C04j_FromJulianDay", params={"NLO": a, "NHI": b, "D": (1 << 31) if b < 4194304 else (1 << 30)}))
+    # C04k: one-second round trip through the Julian Day, as two lemmas under the rounding-error over-approximation
+    #   encode: GetJulianDay of every valid date-time is within 2^-28 day of the nominal value (year symbolic, era x month)
+    #   decode: every float within 2^-28 day of a nominal value converts back to that day and second (century chunks)
+    # C04l: every float64 grid value of whole centuries of day numbers at once (day part under the same over-approximation)
+    for (lo, hi) in ERAS:
+        for m in range(1, 13):
+            if (lo, hi) == (1582, 1582) or True:
+                us.append(dict(id=f"C04k-enc[y={lo}..{hi},m={m}]", harness="calendar.VH_C04k_Encode", params={"YLO": lo, "YHI": hi}, concrete={"v_m": m}))
+    CW = 36525
+    cents = [(lo, min(lo + CW - 1, JHI)) for lo in range(JLO, JHI + 1, CW)]
+    if q:
+        rnd = random.Random(seed + 1)
+        keepc = {0, len(cents) - 1, (2299161 - JLO) // CW, (2451545 - JLO) // CW}
+        keepc.update(rnd.sample(range(len(cents)), 2))
+        cents = [cents[i] for i in sorted(keepc)]
+    for (lo, hi) in cents:
+        segs = [(lo, hi)]
+        if lo < 2299161 <= hi:  # the calendar switch: keep the two branches of the day-number correction apart
+            segs = [(lo, 2299160), (2299161, hi)]
+        for (a, b) in segs:
+            # decode lemma in quarter-century pieces (each query well inside the per-query time limit)
+            QW = 9132
+            for c in range(a, b + 1, QW):
+                us.append(dict(id=f"C04k-dec[N={c}..{min(c + QW - 1, b)}]", harness="calendar.VH_C04k_Decode", params={"NLO": c, "NHI": min(c + QW - 1, b)}))
+            for (c, e) in ([(a, b)] if not (a < 4194304 <= b) else [(a, 4194303), (4194304, b)]):
+                us.append(dict(id=f"C04l[N={c}..{e}]", harness="calendar.VH_C04l_FromJulianDayAll", params={"NLO": c, "NHI": e, "D": (1 << 31) if e < 4194304 else (1 << 30)}))
     for am in range(1, 13):
         for bm in range(1, 13):
             us.append(dict(id=f"C04d[am={am},bm={bm}]", harness="calendar.VH_C04d_Subtract", params={"DY": 2 if q else 12},
@@ -57,12 +83,12 @@ PROPS = {
     "C04": dict(
         units=c04_units,
         bounds={
-            "quick": "years 1..9998 symbolic; NextDay |n|<=70; NextHour |k|<=960; NextMonth |k|<=100000; Subtract |dyear|<=2; cubes on month; Julian Day inverse: every float64 value on the grid 2^-31 (2^-30 from JDN 2^22) inside ~49 chunks of 500 day numbers (first/last, the 1582 switch, J2000, the 2^22 grid change, 40 seeded random)",
-            "thorough": "years 1..9998 symbolic; NextDay |n|<=800; NextHour |k|<=9600; NextMonth |k|<=100000; Subtract |dyear|<=12; Julian Day inverse: every float64 grid value of ALL day numbers 1721424..5373484 (7305 chunks of 500)",
+            "quick": "years 1..9998 symbolic; NextDay |n|<=70; NextHour |k|<=960; NextMonth |k|<=100000; Subtract |dyear|<=2; cubes on month; Julian Day inverse: every float64 value on the grid 2^-31 (2^-30 from JDN 2^22) inside ~49 chunks of 500 day numbers (first/last, the 1582 switch, J2000, the 2^22 grid change, 40 seeded random); one-second round trip: encode lemma for ALL valid date-times (year symbolic), decode lemma and whole-century grid inverse for 6 centuries of day numbers (first, last, 1582 switch, J2000, 2 seeded random) under the rounding-error over-approximation",
+            "thorough": "years 1..9998 symbolic; NextDay |n|<=800; NextHour |k|<=9600; NextMonth |k|<=100000; Subtract |dyear|<=12; Julian Day inverse: every float64 grid value of ALL day numbers 1721424..5373484 (7305 chunks of 500); one-second round trip: encode lemma for all valid date-times, decode lemma and whole-century grid inverse for ALL 100 centuries of day numbers",
         },
         qtimeout={"quick": 60000, "thorough": 120000},
         unit_timeout_ms={"quick": 400000, "thorough": 1500000},
-        outside="step sizes beyond the bounds; float64 Julian Days finer than the stated grid below JDN 2^21 (years < 1030 have one more mantissa bit); the forward one-second round trip GetJulianDay(h,m,s) -> NewSolarFromJulianDay (the forward value is an inexact float over three symbolic inputs)",
+        outside="step sizes beyond the bounds; float64 Julian Days finer than the stated grid below JDN 2^21 (years < 1030 have one more mantissa bit); in the one-second round trip the inexact float operations are OVER-approximated (every IEEE result = exact result within 2^-53 relative, int()/Round as constrained integer variables): unsat carries over to the real floats, a model is reported only if it reproduces natively",
     ),
 }
 
